@@ -410,6 +410,10 @@ def run_write(shape, cid, run, keep=None, release=False):
         keep.append(writer)
     for number, row in enumerate(table["rows"], 1):
         cells = shape.cells(row, number)
+        if shape.fmt == "fixed" and number % 2 == 0:
+            # a caller may pass fixed-width values with some of their padding already in place: the same value, and the same
+            # key for the checks, as without ("1 " and "1" are both written, and read back, as "1  ")
+            cells = [cell + " " if cell and len(cell) < shape.width else cell for cell in cells]
         before = so_far()
         try:
             writer.write_row(cells)
